@@ -45,13 +45,31 @@ type c19Case struct {
 	Prelude []string `json:"prelude,omitempty"`
 }
 
-const c19Rule = "case = buffer (0..64 octets, in 1 case of 16 a patterned buffer of 255..1 Mi octets around the 8-, 16- and 17-bit marks; window into a sentinel-filled array so cap>len) + 1..40 reader operations (one in 40 repeated 255..70000 times) " +
+const c19Rule = "case = buffer (0..64 octets, random or — a quarter of the cases — all 0xff / 0x00 / 0x80 / 0x7f or runs of 0xff and 0x00, in 1 case of 16 a patterned buffer of 255..1 Mi octets around the 8-, 16- and 17-bit marks; window into a sentinel-filled array so cap>len) + 1..40 reader operations (one in 40 repeated 255..70000 times) " +
 	"(Uint8/16/32/64, Read n, Peek n, PeekUint16, Len, ReadCount; n in 0..len+8 and huge values up to MaxInt); in a quarter of the cases the process lets 1..4 of the collector's decoders read a datagram (complete or cut short) before the reader under test is created, and a fresh reader must report 0 octets consumed; " +
 	"non-trivial = a failed read is later followed by a successful read and the sequence has >=1 peek; distinct by hash of the case"
 
 func genC19(t *rapid.T) c19Case {
 	n := rapid.OneOf(rapid.IntRange(0, 12), rapid.IntRange(0, 64)).Draw(t, "len")
 	buf := rapid.SliceOfN(rapid.Byte(), n, n).Draw(t, "buf")
+	switch rapid.IntRange(0, 7).Draw(t, "content") {
+	case 0:
+		// all ones, all zeros: the values an integer read cannot tell from "nothing" if it ever uses one as a marker
+		x := rapid.SampledFrom([]byte{0xff, 0xff, 0x00, 0x80, 0x7f}).Draw(t, "fill")
+		for i := range buf {
+			buf[i] = x
+		}
+	case 1:
+		// runs of 0xff / 0x00 of drawn lengths between random octets
+		for i := 0; i < len(buf); {
+			run := rapid.IntRange(1, 9).Draw(t, "run")
+			x := rapid.SampledFrom([]byte{0xff, 0x00}).Draw(t, "runfill")
+			for k := 0; k < run && i < len(buf); k, i = k+1, i+1 {
+				buf[i] = x
+			}
+			i += rapid.IntRange(0, 2).Draw(t, "gap")
+		}
+	}
 	c := c19Case{Buf: hex.EncodeToString(buf), Pre: rapid.IntRange(0, 9).Draw(t, "pre"), Post: rapid.IntRange(0, 9).Draw(t, "post")}
 	if rapid.IntRange(0, 15).Draw(t, "big") == 0 {
 		c.Buf = ""
